@@ -236,6 +236,14 @@ def rule_R1(ctx):
     hay = {x[1] for x in T.params_in(args[0])}
     needle = {x[1] for x in T.params_in(args[1])}
     good = hay == {0} and needle == {1}
+    extra = []
+    for (rb, j2, term, _c) in TB.return_sites(b, P):
+        if any(x[0] == "agg" and x[3] == "High" for x in T.walk(T.strip(term))):
+            for c in Q.canon_conds(P, T.dom_conds(b, S, rb)):
+                if not (c[0] == "bool" and c[1][0] == "call" and c[1][1].endswith("contains")):
+                    extra.append(("" if (c[2] if c[0] != "cmp" else c[4]) else "!") + T.pp(c[1] if c[0] != "cmp" else c[2])[:40])
+    ctx.check(not extra, "R1", "distance_expsw:only-containment", "an exact software match depends on the containment test alone",
+              "the software string is accepted as exact only under the additional conditions %s: an observation that is an instance of the signature (e.g. both strings empty) is penalised" % extra, ctx.loc(b))
     ctx.check(good, "R1", "distance_expsw:direction" + ("" if good else ":haystack=%s,needle=%s" % ("+".join(map(str, sorted(hay))), "+".join(map(str, sorted(needle))))),
               "observed string is searched for the signature's substring",
               "containment is inverted: haystack originates from %s and needle from %s; the signature's expected substring must be "
@@ -457,6 +465,18 @@ def _nf(t):
             return "%s(%s,%s)" % (fam, a, c)
     if t[0] == "param":
         return {"self": "obs", "other": "sig"}.get(t[2], t[2])
+    if t[0] in ("deref", "ref"):
+        return _nf(t[1] if t[0] == "deref" else t[2])
+    if t[0] == "field" and isinstance(t[2], str):
+        base = T.strip(t[1])
+        while base[0] in ("deref", "ref"):
+            base = T.strip(base[1] if base[0] == "deref" else base[2])
+        if base[0] == "param" and base[2] in ("self", "other", "observed", "signature"):
+            return "%s.%s" % ({"self": "obs", "other": "sig", "observed": "obs", "signature": "sig"}[base[2]], t[2])
+    if t[0] == "call" and t[1].rsplit("::", 1)[-1].startswith("get_") and len(t[2]) == 1:
+        who = _nf(t[2][0])
+        if who in ("obs", "sig"):
+            return "%s.%s" % (who, t[1].rsplit("::", 1)[-1][4:])
     k = T.fold_int(t)
     if k is not None:
         return str(k)
@@ -511,6 +531,58 @@ def rule_R10(ctx):
         missing = sorted(set(table) - seen)
         ctx.check(not missing, "R10", fn + ":arms", "all %d form pairs of the table have an exact-match arm" % len(table),
                   "form pairs without an exact-match arm: %s" % missing, ctx.loc(b))
+
+
+def rule_R12(ctx):
+    """R12: each scalar / list component is charged exactly under the conditions of the specification table (value differs, and - where
+    the signature may leave the value open - the signature pins a value): no extra guard, no weaker comparison"""
+    import json
+    import os
+    from ..engine.facts import VERIF
+    with open(os.path.join(VERIF, "tables", "spec_tables.json")) as fh:
+        spec = json.load(fh)["distance_penalty_conditions"]
+    P = ctx.program
+    n = 0
+    for key, want in spec.items():
+        if key.startswith("_"):
+            continue
+        name = key.rsplit("::", 1)[-1]
+        cands = [b for b in P.bodies.values() if b.crate == "huginn_net_db" and b.name == name and b.blocks and (("::" not in key) or key.split("::")[0] in b.path)]
+        if "::" not in key:
+            cands = [b for b in cands if "HttpDistance" not in b.path]
+        if len(cands) != 1:
+            ctx.cannot("R12", key, "%d bodies for %s" % (len(cands), key))
+            continue
+        b = cands[0]
+        S = T.Slicer(b, P)
+        got_sets = []
+        for (rb, j, term, _c) in TB.return_sites(b, P):
+            tt = T.strip(term)
+            sc = [x[3] for x in T.walk(tt) if x[0] == "agg" and x[3] in ("High", "Medium", "Low", "Bad")]
+            if sc and sc[0] == "High":
+                continue
+            conds = Q.canon_conds(P, T.dom_conds(b, S, rb))
+            got = set()
+            for c in conds:
+                if c[0] == "cmp" and c[1] in ("Eq", "Ne"):
+                    eq = (c[1] == "Eq") == c[4]
+                    got.add("%s(%s)" % ("eq" if eq else "ne", ",".join(sorted((_nf(c[2]), _nf(c[3]))))))
+                elif c[0] == "cmp":
+                    got.add("%s%s(%s,%s)" % ("" if c[4] else "not-", c[1].lower(), _nf(c[2]), _nf(c[3])))
+                elif c[0] == "variant" and c[2] in ("None", "Some"):
+                    pres = (c[2] == "Some") == c[3]
+                    got.add("%s(%s)" % ("present" if pres else "absent", _nf(c[1])))
+                elif c[0] == "variant" and c[2] == "Any":
+                    got.add("%s(%s)" % ("any" if c[3] else "notany", _nf(c[1])))
+                elif c[0] == "bool":
+                    got.add("%s%s" % ("" if c[2] else "not-", T.pp(c[1])[:50]))
+            got_sets.append(got)
+        n += 1
+        ok = bool(got_sets) and all(g == set(want) for g in got_sets)
+        ctx.check(ok, "R12", key + ":charged-iff", "charged exactly under %s" % sorted(want),
+                  "%s is charged under %s, the signature semantics say %s: a signature then accepts observations it does not describe (or rejects / penalises ones it does)"
+                  % (name, [sorted(g) for g in got_sets], sorted(want)), ctx.loc(b))
+    ctx.floor("R12", "components with a penalty-condition table", n, 7)
 
 
 def _split_top(s):
@@ -631,6 +703,7 @@ def rule_R8(ctx):
 
 
 def run(ctx):
+    rule_R12(ctx)
     from . import _narrow as N
     N.narrowing_preserved(ctx, ctx.program, "R8", ("huginn_net_db",))
     rule_R11(ctx)
